@@ -139,6 +139,8 @@ def economy(draw, zones=(1, 3), horizon=(3, 5), want_cross=None, gold=True, fede
             nm = draw(st.sampled_from([2, 1, 2]))
             for mi in range(nm):
                 m = draw(country(codes[1 + mi], 'member', K, False))
+                # REG2 idiom: a Region created without a currency takes the currency of the country declared before it
+                m['default_currency'] = draw(st.booleans())
                 add_private(draw, m, K, c0['deposit'] is not None)
                 m['G'] = draw(path(K, 0, 20000))
                 zone['countries'].append(m)
@@ -277,6 +279,7 @@ def _construct(spec, out, mod, zsel, nm, dsc, make_external, order_seed, hooks):
     if spec['external'] == 'first':
         make_external()
     # ---- countries
+    zones_ok_for_default = True
     n_countries_total = sum(len(spec['zones'][zi]['countries']) for zi in zsel)
     made = 0
     for zi in zsel:
@@ -287,7 +290,10 @@ def _construct(spec, out, mod, zsel, nm, dsc, make_external, order_seed, hooks):
             ctor = Region if c['ctor'] == 'Region' else Country
             code = nm(zi, ci, c['code'])
             ln = dsc('country %s' % code)
-            out.countries[(zi, ci)] = ctor(mod, code, long_name=ln, currency=zone['currency'])
+            if c.get('default_currency') and ci >= 1 and spec['external'] != 'middle' and zones_ok_for_default:
+                out.countries[(zi, ci)] = Region(mod, code, long_name=ln)
+            else:
+                out.countries[(zi, ci)] = ctor(mod, code, long_name=ln, currency=zone['currency'])
             made += 1
     if spec['external'] in ('middle', 'last'):
         make_external()
